@@ -315,8 +315,9 @@ def run(ctx):
             el = eb.operand(rv["ops"][rv["fields"].index("line_number")])
             ebts = eb.operand(rv["ops"][rv["fields"].index("bytes")])
             clos = [facts.fns.get(x[1]) for x in walk(ebts) if x.k == "closure"]
-            bytes_ok = mentions_call(ebts, "core::option::Option::unwrap_or_else") and \
-                any(g is not None and g.calls_to(ev + "::bytes") for g in clos)
+            # replacement's bytes when there is one, else the event's (unwrap_or_else with a closure, or a match)
+            bytes_ok = (any(g is not None and g.calls_to(ev + "::bytes") for g in clos) or mentions_call(ebts, ev + "::bytes")) and \
+                any(y.k == "arg" and y[2] == "replacement" for y in walk(ebts))
             if is_call(strip(ea), ev + "::absolute_byte_offset") and is_call(strip(el), ev + "::line_number") and bytes_ok:
                 r.ok(m, "coordinates from the event; bytes = replacement or the event's bytes", fn=f)
             else:
@@ -369,14 +370,24 @@ def run(ctx):
         # trim_line_terminator removes exactly the terminator: one byte, and under CRLF also a preceding CR — if it is a CR
         tl = facts.fn(P + "::util::trim_line_terminator")
         ebt = ExprBuilder(tl)
-        crsw = cond_switches(tl, lambda e: any(x.k == "const" and (x[1] == 13 or "13_u8" in str(x[2]) or "\\r" in str(x[2])) for x in walk(e)) and
-                             (is_call(e, "core::cmp::PartialEq::eq") or (e.k == "bin" and e[1] == "Eq")), ebt)
-        crlfsw = cond_switches(tl, lambda e: is_call(e, "grep_matcher::LineTerminator::is_crlf"), ebt)
-        sufsw = cond_switches(tl, lambda e: is_call(e, "grep_matcher::LineTerminator::is_suffix"), ebt)
+        def has_cr(e):
+            return any(x.k == "const" and (x[1] == 13 or "13_u8" in str(x[2]) or "\\r" in str(x[2])) for x in walk(e))
+        cr_calls = [c for c in tl.calls() if c.is_("core::cmp::PartialEq::eq") and any(has_cr(ebt.operand(a_)) for a_ in c.args)]
+        cr_stmts = [(bb, j) for bb, j, op, lhs, rhs in cmp_stmts(tl, ebt) if op == "Eq" and (has_cr(lhs) or has_cr(rhs))]
+        crlf_calls = tl.calls_to("grep_matcher::LineTerminator::is_crlf")
+        suf_calls = tl.calls_to("grep_matcher::LineTerminator::is_suffix")
         subs = [bb for bb, j_, st in tl.stmts() if st["k"] == "assign" and st["rv"]["k"] == "bin" and st["rv"]["op"] in ("Sub", "SubWithOverflow")
                 and Wr_const(ebt, st["rv"]) == 1]
-        if sufsw and crlfsw and crsw and len(subs) >= 2:
-            second = [b_ for b_ in subs if not guarded(tl, [b_], crsw, True) and not guarded(tl, [b_], crlfsw, True)]
+        if suf_calls and crlf_calls and (cr_calls or cr_stmts) and len(subs) >= 2:
+            # a subtraction that happens neither when is_crlf() says no nor when the byte in front is not a CR — wherever
+            # the two answers are combined (nested ifs, an `&&` chain, a named flag)
+            def without(calls, stmts):
+                keys = {(c.bb, c.loc) for c in calls}
+                sx = Sccp(tl, call_model=lambda c, argv: I(0) if (c.bb, c.loc) in keys else None,
+                          stmt_values={k_: I(0) for k_ in stmts}).run([(0, {})])
+                return sx.exec_blocks
+            no_crlf, no_cr = without(crlf_calls, []), without(cr_calls, cr_stmts)
+            second = [b_ for b_ in subs if b_ not in no_crlf and b_ not in no_cr]
             if second:
                 r.ok("trim|definition", "terminator present ⇒ minus one byte; CRLF ∧ preceding byte == CR ⇒ minus one more", fn=tl)
             else:
